@@ -1,6 +1,7 @@
 package main
 
 import (
+	"cmp"
 	"fmt"
 	"math"
 	"slices"
@@ -57,6 +58,12 @@ type kvSubj[K comparable] struct {
 }
 
 func (s *kvSubj[K]) kclass(k K) string {
+	if s.cfg.Elem == "float" { // == conflates -0 and +0 and never finds NaN: no memo
+		if kvHasCmp(s.cfg.Kind) {
+			return s.d.Class(k)
+		}
+		return s.d.Str(k)
+	}
 	if c, ok := s.kmemo[k]; ok {
 		return c
 	}
@@ -92,7 +99,39 @@ func newKVSubj[K comparable](cfg Cfg, d *Dom[K], vd *Dom[string], count bool) *k
 	return s
 }
 
+// defaultKV builds the container with New (default comparator) for ordered key types.
+func defaultKV[K cmp.Ordered](kind string, order int) any {
+	switch kind {
+	case "treemap":
+		return treemap.New[K, string]()
+	case "redblacktree":
+		return redblacktree.New[K, string]()
+	case "avltree":
+		return avltree.New[K, string]()
+	case "btree":
+		return btree.New[K, string](order)
+	case "treebidimap":
+		return treebidimap.New[K, string]()
+	}
+	return nil
+}
+
 func (s *kvSubj[K]) make() maps.Map[K, string] {
+	if s.cfg.Ctor == "default" && s.calls == nil {
+		var zero K
+		var c any
+		switch any(zero).(type) {
+		case int:
+			c = defaultKV[int](s.cfg.Kind, s.cfg.Order)
+		case string:
+			c = defaultKV[string](s.cfg.Kind, s.cfg.Order)
+		case float64:
+			c = defaultKV[float64](s.cfg.Kind, s.cfg.Order)
+		}
+		if m, ok := c.(maps.Map[K, string]); ok && m != nil {
+			return m
+		}
+	}
 	switch s.cfg.Kind {
 	case "hashmap":
 		return hashmap.New[K, string]()
@@ -187,6 +226,10 @@ func (s *kvSubj[K]) ModelApply(op Op) {
 		}
 	case "Clear":
 		s.ents = nil
+	case "Fill":
+		for j, i := range fillIdx(op.A) {
+			s.modelPut(s.d.At(i), "f"+strconv.Itoa(op.ID)+"."+strconv.Itoa(j))
+		}
 	default:
 		panic("kv model: unknown op " + op.N)
 	}
@@ -345,6 +388,10 @@ func (s *kvSubj[K]) Step(op Op, o *Oracle) {
 		s.counted(o, "Remove", 3, func() { s.m.Remove(k) })
 	case "Clear":
 		s.m.Clear()
+	case "Fill":
+		for j, i := range fillIdx(op.A) {
+			s.m.Put(s.d.At(i), "f"+strconv.Itoa(op.ID)+"."+strconv.Itoa(j))
+		}
 	default:
 		panic("kv: unknown op " + op.N)
 	}
@@ -408,7 +455,7 @@ func (s *kvSubj[K]) nav() *kvNav[K] {
 					return k, "", false
 				}
 				n := t.Left()
-				if n == nil || len(n.Entries) == 0 || n.Entries[0].Key != lk.(K) {
+				if n == nil || len(n.Entries) == 0 || s.d.Str(n.Entries[0].Key) != s.d.Str(lk.(K)) {
 					return k, "INCONSISTENT Left()/LeftKey()", true
 				}
 				return lk.(K), lv.(string), true
@@ -422,7 +469,7 @@ func (s *kvSubj[K]) nav() *kvNav[K] {
 					return k, "", false
 				}
 				n := t.Right()
-				if n == nil || len(n.Entries) == 0 || n.Entries[len(n.Entries)-1].Key != rk.(K) {
+				if n == nil || len(n.Entries) == 0 || s.d.Str(n.Entries[len(n.Entries)-1].Key) != s.d.Str(rk.(K)) {
 					return k, "INCONSISTENT Right()/RightKey()", true
 				}
 				return rk.(K), rv.(string), true
@@ -601,7 +648,7 @@ func (s *kvSubj[K]) checkC02(o *Oracle, keys []K, vals []string, ms []kvEnt[K]) 
 	if it := s.keyIter(); it != nil {
 		i := 0
 		for it.Next() {
-			if i >= len(keys) || it.Key() != keys[i] {
+			if i >= len(keys) || s.d.Str(it.Key()) != s.d.Str(keys[i]) {
 				o.Fail("C02", "iterator-sequence", "after %s: iterator element %d is %s, Keys()=%s", o.cur, i, s.d.Str(it.Key()), joinS(keys, s.d.Str))
 				break
 			}
